@@ -447,7 +447,7 @@ impl<'ast, 'm> Visit<'ast> for EffVisitor<'m> {
             }
             self.eff.assigned.insert(place_root(r).unwrap_or_else(|| "<complex place>".into()));
         }
-        if self.fuel_names.contains(&n) || (n == "last" && i.args.is_empty()) {
+        if self.fuel_names.contains(&n) || (n == "last" && i.args.is_empty()) || (n == "fold" && i.args.len() == 2 && matches!(&i.args[1], Expr::Closure(c) if c.inputs.len() == 2)) {
             self.eff.ret = true;
         }
         self.mutargs(&n, i.args.iter());
